@@ -186,7 +186,8 @@ def h_parse(e, n):
 
 
 # ------------------------------------------------------------------------------------------- sort + merge
-POOL = ['apple', 'Apple', 'banana!x', 'apple!pie', 'apple!Pie', 'zeta@alpha', 'banana', 'apple!pie!hot', 'cherry|see{apple}', 'banana!y', 'alpha', 'b@Banana!x']
+POOL = ['apple', 'Apple', 'banana!x', 'apple!pie', 'apple!Pie', 'zeta@alpha', 'banana', 'apple!pie!hot', 'cherry|see{apple}', 'banana!y', 'alpha', 'b@Banana!x',
+        'delta|(', 'delta|)', 'foo@\\texttt{foo}', 'foo', 'apple|textbf']
 
 
 def ref_tree(entries):
@@ -225,9 +226,12 @@ def _split(entry):
     return tuple(ss), tuple(ks)
 
 
-def h_digest(e, k, pool):
+def h_digest(e, k, pool, sub=None):
     doc = TeXDocument()
-    sel = [e.choice(pool, 'entry%d' % i) for i in range(k)]
+    if sub is not None:
+        sel = [sub[e.choice(len(sub), 'entry%d' % i)] for i in range(k)]
+    else:
+        sel = [e.choice(pool, 'entry%d' % i) for i in range(k)]
     src = '\\documentclass{article}\\usepackage{makeidx}\\makeindex\\begin{document}' + ''.join('w%d\\index{%s} ' % (i, POOL[j]) for i, j in enumerate(sel)) + \
           '\\printindex\\end{document}'
     tex = TeX(doc)
@@ -248,9 +252,20 @@ def h_digest(e, k, pool):
                 if isinstance(c, IDX.IndexUtils.Index)]
 
     def strip(t):
-        return [{'k': n['k'], 's': n['s'], 'pages': n['pages'], 'kids': strip(n['kids'])} for n in t]
+        return [{'k': _keytext(n['k']), 's': n['s'], 'pages': n['pages'], 'kids': strip(n['kids'])} for n in t]
     got = real(pis[0])
     e.observe(got)
+    # one page reference per occurrence, in document order
+    marks = out.getElementsByTagName('index')
+    pos = {id(n): i for i, n in enumerate(marks)}
+
+    def pages_in_order(node):
+        for c in node.childNodes:
+            if isinstance(c, IDX.IndexUtils.Index):
+                ps = [pos.get(id(pg._cr_node)) for pg in c.pages]
+                e.check(None not in ps and ps == sorted(ps) and len(set(ps)) == len(ps), 'page references of %r are not in document order: occurrences %s' % (str(c.key.textContent), ps), 'page-order')
+                pages_in_order(c)
+    pages_in_order(pis[0])
 
     def ordered(t):
         ks = [(n['s'].lower(), n['k'].lower()) for n in t]
@@ -272,6 +287,13 @@ def h_digest(e, k, pool):
     e.check(len(flat) == len(tops) and all(a is b for a, b in zip(flat, tops)), 'groups/columns are not an order-preserving partition of the entries', 'group-partition')
     if k >= 2:
         e.nontriv()
+
+
+def _keytext(k):
+    """visible text of a written display key (one level of \\cmd{...} markup)"""
+    import re
+    m = re.fullmatch(r'\\[a-z]+\{(.*)\}', k)
+    return m.group(1) if m else k
 
 
 def _show(t):
@@ -329,6 +351,7 @@ def jobs(tier, seed):
     J.append(dict(harness='h_parse', params=dict(n=4 if q else 6), label='entry parser'))
     J.append(dict(harness='h_parse', params=dict(n=2), label='entry parser short'))
     J.append(dict(harness='h_digest', params=dict(k=3 if q else 4, pool=9 if q else 12), label='sort+merge'))
-    J.append(dict(harness='h_digest', params=dict(k=2, pool=12), label='sort+merge pairs'))
+    J.append(dict(harness='h_digest', params=dict(k=2, pool=len(POOL)), label='sort+merge pairs'))
+    J.append(dict(harness='h_digest', params=dict(k=3 if q else 4, pool=0, sub=[0, 2, 12, 13, 14, 15, 16]), label='sort+merge ranges/markup/formats', no_twin=True))
     J.append(dict(harness='h_groups', params=dict(n=3), label='groups'))
     return J
